@@ -409,7 +409,7 @@ PROPS["C20"] = dict(
          " under -race. Oracle on logs stamped with a logical clock: <= 1 delivery per (publish, subscriber); <= 1 clean-up per subscriber;"
          " no delivery after the return of an unsubscribe that matches the subscriber; a publish that starts after a subscription returned"
          " reaches it unless an unsubscribe/failure intervened; deliveries only for matching ids; returned counts within the min..max over"
-         " all sequential orders of the calls; no deadlock (10 s watchdog per block); no race report. Non-trivial = another worker runs"
+         " all sequential orders of the calls; no deadlock (decided from the goroutine states: a worker parked on a lock in two samples; the clock only says when to look); no race report. Non-trivial = another worker runs"
          " between the two phases of a publish (or a stress round).",
     level_text="Block interleavings of the listed small programs are exhaustive (exhaustive=true refers to Part 1); everything else is sampled."
                " Completeness at block granularity relies on every registry access sitting inside the hooked critical sections, which the -race part watches.",
@@ -421,8 +421,8 @@ PROPS["C20"] = dict(
 
 PROPS["C12"] = dict(
     pkg="conc", test="TestC12", engine="conc", race=True,
-    quick=dict(checks=720, shards=4), thorough=dict(checks=32000, shards=16), timeout=dict(quick=900, thorough=3000),
-    nt_floor=dict(quick=210, thorough=20000),
+    quick=dict(checks=1600, shards=8), thorough=dict(checks=32000, shards=16), timeout=dict(quick=900, thorough=3000),
+    nt_floor=dict(quick=400, thorough=20000),
     must_classes=["concurrent-goroutines>=2", "strategies=X", "strategies=RX", "strategies=A", "interfaces-and-unions", "yield-jitter", "goroutines=2", "goroutines=32"],
     level="exploration",
     technique="concurrency testing under the Go race detector: generated request mixes released together on a cold root (nothing lazily bound yet), each response compared with the same request run alone; yield hooks add scheduling jitter at the lazy-binding sites",
@@ -430,8 +430,8 @@ PROPS["C12"] = dict(
          " union, bindings by name / @go / RegisterType / RegisterField) served by reflection, by reflection mixed with Resolver objects, or"
          " by the root resolver; 4-24 generated requests (nested selections, fragments, arguments, variables, introspection) are assigned to"
          " 2..2xcores goroutines that start behind one barrier and parse+resolve against the one root. Oracles: the race detector"
-         " (GORACE=halt_on_error: a report kills the worker, the driver turns it into a violation with the last case as replay); a 90 s"
-         " deadlock watchdog; each response equals the response of the same request run alone on its own fresh root. Non-trivial = at"
+         " (GORACE=halt_on_error: a report kills the worker, the driver turns it into a violation with the last case as replay); a"
+         " deadlock verdict taken from the goroutine states (all unfinished workers parked on a lock in two samples 3 s apart); each response equals the response of the same request run alone on its own fresh root. Non-trivial = at"
          " least two goroutines actually issue requests.",
     level_text="Schedules are whatever the Go scheduler produces (plus hook jitter): sampled, not enumerated. The race detector only sees accesses that execute.",
     level_note="Trusted: Go race detector; the harness fixtures are themselves race-free (call log and counters are mutex protected).",
